@@ -228,6 +228,7 @@ structure Mid (ud : Bool) (n : Nat) (dv : Option Bytes) (sk T : Bytes) (c : Ctx)
   needs : AllNeed H D f h k
   dictOk : ud = true → h.compType ≠ 0 → dv = dictMain D f h ∧ (k = 0 → dictMain D f h = none)
   pa : ud = false → k = 0 ∨ (k = 1 ∧ h.compType ≠ 0 ∧ n ≤ T.length + c.dc.length)
+  nsk : ¬ Skipped k ch
 
 /-- every chunk consumed and verified -/
 structure Fin (ud : Bool) (dv : Option Bytes) (sk T : Bytes) (c : Ctx) : Prop where
@@ -269,7 +270,7 @@ theorem SI.handout {ud n dv sk T c} (m : Nat) (s : SI H D f h ud n dv sk T c) :
     · simp [s.t0, s.dc]
   | mid k ch s =>
     refine .mid k ch ⟨⟨s.base.hdr, s.base.noerr, s.base.started, s.base.dict⟩, s.eof, s.idx, s.chk, s.loc, s.pres, s.pos,
-      s.chash, s.fhash, s.dataZ, ?_, s.needs, s.dictOk, ?_⟩
+      s.chash, s.fhash, s.dataZ, ?_, s.needs, s.dictOk, ?_, s.nsk⟩
     · show sk ++ (T ++ c.dc.take m) ++ c.dc.drop m ++ _ = _
       rw [key]; exact s.acct
     · intro hu
@@ -291,7 +292,7 @@ theorem SI.handout {ud n dv sk T c} (m : Nat) (s : SI H D f h ud n dv sk T c) :
 theorem Mid.moveData {ud n dv sk T c k ch} (s : Mid H D f h ud n dv sk T c k ch) (hz : h.compType = 0) :
     Mid H D f h ud n dv sk T { c with dc := c.dc ++ c.data, data := [] } k ch := by
   refine ⟨⟨s.base.hdr, s.base.noerr, s.base.started, s.base.dict⟩, s.eof, s.idx, s.chk, s.loc, s.pres, s.pos,
-    s.chash, s.fhash, fun hne => absurd hz hne, ?_, s.needs, s.dictOk, ?_⟩
+    s.chash, s.fhash, fun hne => absurd hz hne, ?_, s.needs, s.dictOk, ?_, s.nsk⟩
   · have := s.acct
     simp only [hz, ↓reduceIte] at this ⊢
     simp only [List.append_nil, ← List.append_assoc] at this ⊢
@@ -333,7 +334,7 @@ theorem Start.first {ud n dv sk T c} (s : Start D f h ud dv sk T c) (hr : C13.Ru
         have hs1 : (h.chunks[1]).start = 0 := by
           have := run_next h hr 0 d _ h0 h1; omega
         refine ⟨h.chunks[1], ⟨s.base.hdr, s.base.noerr, s.base.started, s.base.dict⟩, s.eof, rfl, h1, by simp [s.loc], ?_, ?_, ?_, ?_, ?_, ?_,
-          ?_, ?_, ?_⟩
+          ?_, ?_, ?_, fun hs => by have := hs.1; omega⟩
         · simp [s.loc, hs1, fileRead_zero]
         · simp [s.loc, hs1, s.pos]
         · simp [s.loc, fileRead_zero]
@@ -358,7 +359,7 @@ theorem Start.first {ud n dv sk T c} (s : Start D f h ud dv sk T c) (hr : C13.Ru
     · rw [if_neg hsk] at hi
       cases hi
       refine ⟨d, ⟨s.base.hdr, s.base.noerr, s.base.started, s.base.dict⟩, s.eof, rfl, h0, by simp [s.loc], ?_, ?_, ?_, ?_, ?_, ?_,
-        ?_, ?_, ?_⟩
+        ?_, ?_, ?_, fun hs => hsk ⟨hs.2.1, hs.2.2⟩⟩
       · simp [s.loc, hs0, fileRead_zero]
       · simp [s.loc, hs0, s.pos]
       · simp [s.loc, fileRead_zero]
@@ -410,7 +411,7 @@ theorem Mid.read {ud n dv sk Tp out c k ch} (s : Mid H D f h ud n dv sk (Tp ++ o
         rw [← Nat.add_assoc, fileRead_add, ← Nat.add_assoc, hsrc2]
       have hflag : flag4 { c with pos := c.pos + src.length } = f4 h := flag4_eq (by exact s.base.hdr)
       refine .mid k ch ⟨⟨s.base.hdr, s.base.noerr, s.base.started, s.base.dict⟩, s.eof, s.idx, s.chk, ?_, ?_, ?_, ?_, ?_, ?_, ?_,
-        s.needs, s.dictOk, ?_⟩
+        s.needs, s.dictOk, ?_, s.nsk⟩
       · show c.dataLoc + src.length ≤ ch.compLen
         omega
       · show (fileRead f (dOff h) (ch.start + (c.dataLoc + src.length))).length = ch.start + (c.dataLoc + src.length)
@@ -580,7 +581,7 @@ theorem Mid.endChunk {ud n dv sk T c k ch c2} (s : Mid H D f h ud n dv sk T c k 
     have hnx : h.chunks[k + 1]? = some h.chunks[k + 1] := List.getElem?_eq_getElem hnext
     have hst : (h.chunks[k + 1]).start = ch.start + ch.compLen := run_next h hr k ch _ s.chk hnx
     refine .mid (k + 1) h.chunks[k + 1] ⟨⟨hhdr, s.base.noerr, s.base.started, s.base.dict⟩, s.eof, rfl, hnx, Nat.zero_le _,
-      ?_, ?_, ?_, ?_, ?_, ?_, hneeds, ?_, ?_⟩
+      ?_, ?_, ?_, ?_, ?_, ?_, hneeds, ?_, ?_, fun hs => by have := hs.1; omega⟩
     · show (fileRead f (dOff h) ((h.chunks[k + 1]).start + 0)).length = (h.chunks[k + 1]).start + 0
       rw [hst, Nat.add_zero, ← hloc]; exact s.pres
     · show c.pos = dOff h + (h.chunks[k + 1]).start + 0
@@ -802,7 +803,7 @@ theorem SI.retag {n n' dv sk T c} (s : SI H D f h true n dv sk T c) : SI H D f h
   | start s => exact .start s
   | mid k ch s =>
     exact .mid k ch ⟨s.base, s.eof, s.idx, s.chk, s.loc, s.pres, s.pos, s.chash, s.fhash, s.dataZ, s.acct, s.needs, s.dictOk,
-      fun hu => by cases hu⟩
+      (fun hu => by cases hu), s.nsk⟩
   | fin s => exact .fin s
 
 /-- what is known about the bytes taken out of the stream for the dictionary -/
@@ -882,7 +883,7 @@ theorem import_SI (hr : C13.RunFrom 0 0 h.chunks) (d : Chunk) (hd : h.chunks.hea
       rw [this] at hbl; simp at hbl; omega
     | mid k ch s1 =>
       refine .mid k ch ⟨⟨s1.base.hdr, s1.base.noerr, rfl, rfl⟩, s1.eof, s1.idx, s1.chk, s1.loc, s1.pres, s1.pos, s1.chash,
-        s1.fhash, s1.dataZ, ?_, s1.needs, ?_, fun hu => by cases hu⟩
+        s1.fhash, s1.dataZ, ?_, s1.needs, ?_, (fun hu => by cases hu), s1.nsk⟩
       · have := s1.acct
         simpa using this
       · intro _ hz
